@@ -514,7 +514,47 @@ def run_rest(case, mon):
     mon.count("policy:" + case["policy"])
 
 
+def go_type_tags():
+    """JSON tags per struct parsed from go/eudoxia/types.go (the Go side cannot be executed here)."""
+    import os
+    from .. import env
+    path = os.path.join(env.REPO, "go", "eudoxia", "types.go")
+    tags = {}
+    try:
+        cur = None
+        for line in open(path):
+            m = re.match(r"\s*type\s+(\w+)\s+struct", line)
+            if m:
+                cur = m.group(1)
+                tags[cur] = set()
+                continue
+            if cur and line.strip().startswith("}"):
+                cur = None
+                continue
+            m = re.search(r'`json:"([^",]+)', line)
+            if cur and m:
+                tags[cur].add(m.group(1))
+    except OSError:
+        return {}
+    return tags
+
+
+def compare_with_go_types(mon):
+    """Evidence only (no verdict): do the documented Python payload keys equal the Go struct tags?"""
+    tags = go_type_tags()
+    pairs = {"ScheduleRequest": TOP_KEYS, "Pipeline": PIPE_KEYS, "Operator": OP_KEYS, "Pool": POOL_KEYS,
+             "Container": CONT_KEYS, "ExecutionResult": RESULT_KEYS}
+    for name, keys in pairs.items():
+        if name not in tags:
+            mon.count("go_types:struct_not_found:" + name)
+        elif tags[name] == keys:
+            mon.count("go_types:tags_equal_python_keys:" + name)
+        else:
+            mon.count("go_types:tags_differ:" + name + ":" + ",".join(sorted(tags[name] ^ keys)))
+
+
 def run_paired_serialisation(case, mon):
+    compare_with_go_types(mon)
     """Same structure, different segment values => identical pipeline payloads (ids aside)."""
     import random
     from .. import sut
